@@ -139,6 +139,14 @@ def check_normalize(case, ctx):
                     ctx.check(der_eq(list(dn[k][l]), [x * B[0] ** k * B[1] ** l for x in df[k][l]], (k, l)), "normalize-derivative",
                               "derivative (%d,%d): normalised %r, original range %r" % (k, l, dn[k][l], df[k][l]))
     ctx.nt(any(k in ("knot", "end", "start") for k in kinds_all), "on-knot-or-end")
+    plN, plF = [], []
+    for descs in case["params"]:
+        descs = [(["in"] + list(x[1:3])) if x[0] in ("other", "near") else x for x in descs]
+        plN.append(build.call_param(N, build.resolve_params(N, descs)[0]))
+        plF.append(build.call_param(Fo, build.resolve_params(Fo, descs)[0]))
+    ln, lf = N.evaluate_list(plN), Fo.evaluate_list(plF)
+    ctx.check(len(ln) == len(plN) and len(lf) == len(plF), "normalize-evaluate_list", "evaluate_list of %d in-domain parameters returned %d (normalised) and %d (original range) points" % (len(plN), len(ln), len(lf)))
+    ctx.check(_rel_eq([list(p) for p in ln], [list(p) for p in lf]), "normalize-evaluate_list", "evaluate_list differs between the two settings")
     n = case["n"]
     N.delta = 1.0 / n
     Fo.delta = 1.0 / n
@@ -217,6 +225,7 @@ def _procs_cases(draw, tier):
                 "spacing": draw(st.sampled_from([1, 2]))}
     d = draw(gen.spline(kinds=("surface", "volume"), max_p=2, max_extra=2, vol_max_p=1, vol_max_extra=2, distinct=True))
     return {"what": what, "shapes": [d], "grid": [draw(st.sampled_from([3, 5, 7, 2, 4, 6])) for _ in range(3)], "n": draw(st.integers(2, 4)),
+            "vkw": draw(st.sampled_from([{}, {}, {"tol": 0.0625}, {"padding": 0.0625}, {"tol": 0.125, "padding": 0.03125}])),
             "procs": draw(st.sampled_from([2, 4, 8]))}
 
 
@@ -245,8 +254,10 @@ def check_num_procs(case, ctx):
             raise Skip("flat bounding box")
         nvox = case["grid"][0] * case["grid"][1] * case["grid"][2]
         ctx.nt(nvox % procs != 0, "voxel-count-not-multiple-of-procs")
-        g1, f1 = voxelize.voxelize(obj, grid_size=tuple(case["grid"]), num_procs=1)
-        gk, fk = voxelize.voxelize(build.make(d) if False else obj, grid_size=tuple(case["grid"]), num_procs=procs)
+        vkw = dict(case.get("vkw") or {})
+        ctx.nt(bool(vkw), "voxelize-keyword")
+        g1, f1 = voxelize.voxelize(obj, grid_size=tuple(case["grid"]), num_procs=1, **vkw)
+        gk, fk = voxelize.voxelize(obj, grid_size=tuple(case["grid"]), num_procs=procs, **vkw)
         ctx.check(gk == g1, "num_procs-voxel-grid", "voxel grid with num_procs=%d differs" % procs)
         ctx.check(list(fk) == list(f1), "num_procs-voxel-filled", "fill flags with num_procs=%d differ from num_procs=1 (%d vs %d flags)" % (procs, len(fk), len(f1)))
 
